@@ -122,6 +122,8 @@ def render(t):
         return f'if({render(t[1])}, {render(t[2])}, {render(t[3])})'
     if k == 'call':
         return 'hh(' + ', '.join(render(a) for a in t[1]) + ')'
+    if k == 'callu':
+        return 'uu(' + ', '.join(render(a) for a in t[1]) + ')'
     raise ValueError(t)
 
 
@@ -147,6 +149,10 @@ def evaluate(t, leaf, log):
         args = [evaluate(a, leaf, log) for a in t[1]]
         log.append(('hh', len(args)))
         return args[0] if args else None
+    if k == 'callu':
+        for a in t[1]:
+            evaluate(a, leaf, log)          # arguments are evaluated (left to right) before the callee is looked up
+        raise UndefinedFunction('uu')
     op = t[1]
     a = evaluate(t[2], leaf, log)
     if op == '&&':
@@ -155,6 +161,10 @@ def evaluate(t, leaf, log):
         return a if truthy(a) else evaluate(t[3], leaf, log)
     b = evaluate(t[3], leaf, log)
     return binop(op, a, b, lenient=True)
+
+
+class UndefinedFunction(Exception):
+    pass
 
 
 def shapes(ops, depth):
@@ -176,6 +186,7 @@ def shapes(ops, depth):
             for a in subs[:2]:
                 yield ('if', c, a, ('leaf', None))
                 yield ('call', [c, a])
+                yield ('callu', [c, a])
     out = []
     for d in range(1, depth + 1):
         out.extend(gen(d))
@@ -200,7 +211,7 @@ def number(t):
             c = rec(x[1])
             a = rec(x[2])
             return ('if', c, a, rec(x[3]))
-        if x[0] == 'call':
-            return ('call', [rec(a) for a in x[1]])
+        if x[0] in ('call', 'callu'):
+            return (x[0], [rec(a) for a in x[1]])
         raise ValueError(x)
     return rec(t), counter[0]
